@@ -7,6 +7,7 @@ TQ.lean (tq/transfer_queue.go after the D3/D4/D19 repairs) plus the trace wrappe
 import LfsModel.Gen
 import LfsModel.TQTraceProofs
 import LfsModel.TQRetry
+import LfsModel.TQErr
 
 namespace C06
 open TQ
@@ -43,6 +44,35 @@ theorem conservation_at_quiescence (cap bs mr : Nat) (es : List XEv) (s : State)
   | delivered => exact Or.inl ht
   | noAction => exact Or.inr (Or.inl ht)
   | errored => exact Or.inr (Or.inr ht)
+
+/-- ERROR COVERAGE: in every reachable state an object that ended as "errored" is covered by a
+    reported error (the error count is positive) — in particular after a batch API call that failed
+    while only SOME of its objects could be re-queued. -/
+theorem errored_objects_are_reported (cap bs mr : Nat) (es : List XEv) (s : State)
+    (hr : xrun (init cap bs mr) es = some s) (o : Oid) (ho : s.st o = .term .errored) : 0 < s.errors := by
+  have key : ∀ (es : List XEv) (s0 s1 : State), xrun s0 es = some s1 → ErrCover s0 → ErrCover s1 := by
+    intro es
+    induction es with
+    | nil => intro s0 s1 h hc; simp [xrun] at h; subst h; exact hc
+    | cons e es ih =>
+      intro s0 s1 h hc
+      simp only [xrun] at h
+      split at h
+      · rename_i s2 hs2
+        refine ih s2 s1 h ?_
+        cases e with
+        | core e => exact step_errCover s0 s2 e hs2 hc
+        | replyIgnored => simp [xstep] at hs2; subst hs2; exact Or.inl (by simp)
+        | abort =>
+          simp only [xstep] at hs2
+          split at hs2
+          · cases hs2
+          · cases hs2; exact Or.inl (by simp)
+      · cases h
+  have h0 : ErrCover (init cap bs mr) := Or.inr (by intro x; simp [init])
+  rcases key es _ _ hr h0 with h | h
+  · exact h
+  · exact absurd ho (h o)
 
 /-- LIVENESS 1: every event except `add` strictly decreases the measure `mu`, so a run that stops
     adding has at most `mu s` further queue events. -/
